@@ -53,9 +53,9 @@ static int count_fds(void)
 
 /* ------------------------------------------------------------------ archives */
 
-static ab_arc ARCS[8];
+static ab_arc ARCS[10];
 static int NARCS;
-static int TRUNCATED_LAST[8];
+static int TRUNCATED_LAST[10];
 
 static void build_archives(void)
 {
@@ -99,6 +99,20 @@ static void build_archives(void)
 	a->n -= 57;
 	a->m[1].data_len -= 57;
 	TRUNCATED_LAST[5] = 1;
+	/* 6: dangerous links at different depths (the ordering key is path + name), inside a directory the caller may leave unextracted */
+	a = &ARCS[NARCS++]; ab_init(a, 1 << 18);
+	ab_add(a, 2, 1, "-lhd-", "dd/", "", NULL, 0, 0, 1, 040755, 1262304000);
+	ab_add(a, 2, 2, "-lhd-", "dd/", "quite_long_name", "../x", 0, 0, 1, 0120777, 1262304000);
+	ab_add(a, 2, 2, "-lhd-", "", "shortlnk", "/abs", 0, 0, 1, 0120777, 1262304000);
+	ab_add(a, 2, 2, "-lhd-", "dd/", "s2", "../../y", 0, 0, 1, 0120777, 1262304000);
+	ab_add(a, 2, 0, "-lh0-", "", "f", NULL, 10, 8, 1, 0100644, 1262304000);
+	/* 7: MacLHA member whose data is cut (the MacBinary pass-through cannot start), then nothing */
+	a = &ARCS[NARCS++]; ab_init(a, 1 << 18);
+	ab_add(a, 1, 0, "-lh5-", "", "ok", NULL, 200, 14, 0, 0, 0);
+	ab_add_mac(a, 2, "Cut Mac", 300, 0, 1, 1262304000);
+	a->n -= 350;
+	a->m[1].data_len -= 350;
+	TRUNCATED_LAST[7] = 1;
 }
 
 /* ------------------------------------------------------------------ sandbox */
